@@ -448,7 +448,7 @@ func compOf(dp *lib.DecodedPatch) string { return fmt.Sprintf("%s-q%d", dp.Algo,
 
 func c17Real(c *Ctx) error {
 	r := c.Rng.Fork()
-	n := nFor(c, 8, 150, 10)
+	n := nFor(c, 10, 160, 10)
 	for i := 0; i < n; i++ {
 		cr := r.Fork()
 		maxSize := 2*lib.BS + 17
@@ -500,7 +500,7 @@ func c17Corpus(c *Ctx) error {
 func c17Crafted(c *Ctx) error {
 	r := c.Rng.Fork()
 	corpus := craftCorpus()
-	n := nFor(c, 10, 400, 300) + len(corpus)
+	n := nFor(c, 16, 500, 300) + len(corpus)
 	for i := 0; i < n; i++ {
 		cr := r.Fork()
 		var cf *craft
@@ -549,7 +549,7 @@ func c17Crafted(c *Ctx) error {
 
 func c17Reinterp(c *Ctx) error {
 	r := c.Rng.Fork()
-	n := nFor(c, 300, 4000, 1000)
+	n := nFor(c, 300, 6000, 1000)
 	interesting := []int64{0, 1, 2, 3, 2049, 2048, 2050, -1, 1 << 31, 1<<31 - 1, 1<<32 + 2049, -(1 << 31), 1<<63 - 1, -(1 << 63), 16, 255, 256}
 	pick := func(cr *lib.Rng) int64 {
 		switch cr.Intn(4) {
